@@ -285,7 +285,7 @@ def r17_4(ctx):
 
 def rules(ctx):
     from . import c16
-    return [r17_1, r17_2, r17_3, r17_4, r17_5, c16.r16_2]
+    return [__import__('vjsx.rules.c10', fromlist=['x']).field_ratchet('inferred runtime types must not depend on what was resolved before'), r17_1, r17_2, r17_3, r17_4, r17_5, c16.r16_2]
 
 
 EXPLANATION = (
